@@ -3,7 +3,6 @@ package main
 import (
 	"encoding/json"
 	"fmt"
-	"sync"
 
 	"verif/harness/internal/proto"
 )
@@ -118,6 +117,11 @@ func genSysHistory(rng *proto.Rng) sysIn {
 				if o.MutFrom != nil && rng.Chance(1, 4) {
 					o.MutBad = true
 				}
+				if rng.Chance(1, 10) {
+					// a manifest that already carries an owning-inventory annotation (exported from another installation, or from
+					// this one): the run stamps its own id over it
+					o.Owner = proto.Pick(rng, []string{"other-inv", "other-inv", sysInvID, ""})
+				}
 				run.Objs = addObj(run.Objs, o)
 				// usually bring the dependencies along
 				if rng.Chance(3, 4) {
@@ -132,6 +136,13 @@ func genSysHistory(rng *proto.Rng) sysIn {
 						run.Objs = addObj(run.Objs, soA)
 					}
 				}
+			}
+			if rng.Chance(1, 15) {
+				// an id the inventory cannot store (its string form does not read back as the same id): the inventory task refuses
+				// the whole set, nothing is applied
+				run.Objs = addObj(run.Objs, proto.Pick(rng, []sysObj{
+					{ID: jid{"ns1", "a_b", "", "ConfigMap"}},
+					{ID: jid{"", "x__y", "rbac.authorization.k8s.io", "ClusterRole"}}}))
 			}
 			if rng.Chance(1, 4) {
 				for _, o := range sysInvalid(rng) {
@@ -189,7 +200,7 @@ func genSysHistory(rng *proto.Rng) sysIn {
 		}
 		run.InvAlt = rng.Chance(1, 8)
 		if len(run.FailMut)+len(run.FailGet)+len(run.FailInvRead) > 0 {
-			run.FailCode = proto.Pick(rng, []int{0, 0, 403, 422})
+			run.FailCode = proto.Pick(rng, []int{0, 0, 403, 422, 409})
 		}
 		switch rng.Intn(16) {
 		case 0:
@@ -283,6 +294,15 @@ func sysHandWritten() []sysIn {
 		{Pre: pre, Runs: []sysRun{{Kind: "apply", Objs: []sysObj{soA, soD}, Cancel: "mut:1", WatchErr: "mut:2"}}},
 		{Pre: pre, Runs: []sysRun{{Kind: "apply", Objs: []sysObj{soA, soD}, Cancel: "mut:2", WatchErr: "mut:1"}}},
 		{Pre: pre, Runs: []sysRun{{Kind: "apply", Objs: []sysObj{soA, soD}, WatchErr: "mut:1"}, {Kind: "destroy", Cancel: "mut:0", WatchErr: "mut:1"}}},
+		// another client creates the inventory object between this run's lookup and its CREATE (409 AlreadyExists): the run stops
+		{Pre: pre, Runs: []sysRun{{Kind: "apply", Objs: []sysObj{soA, soD}, FailMut: []int{0}, FailCode: 409},
+			{Kind: "apply", Objs: []sysObj{soA}, FailMut: []int{1}, FailCode: 409}, {Kind: "destroy"}}},
+		// manifests exported from another installation still carry its owning-inventory annotation
+		{Pre: pre, Runs: []sysRun{{Kind: "apply", Objs: []sysObj{{ID: soA.ID, Owner: "other-inv"}, soD}}, {Kind: "apply", Objs: []sysObj{}}, {Kind: "destroy"}}},
+		{Pre: pre, Runs: []sysRun{{Kind: "apply", Objs: []sysObj{{ID: soA.ID, Owner: "other-inv"}, {ID: soNs1.ID, Owner: "other-inv"}}, Opts: sysOpts{Policy: 0}}, {Kind: "destroy"}}},
+		// ids the inventory cannot store
+		{Pre: pre, Runs: []sysRun{{Kind: "apply", Objs: []sysObj{soA, {ID: jid{"ns1", "a_b", "", "ConfigMap"}}}}, {Kind: "apply", Objs: []sysObj{soA}},
+			{Kind: "apply", Objs: []sysObj{soA, {ID: jid{"", "x__y", "rbac.authorization.k8s.io", "ClusterRole"}}}, Opts: sysOpts{StatusAll: true}}, {Kind: "destroy"}}},
 		// boundary: empty apply sets (nothing tracked yet; everything tracked pruned), destroy without an inventory
 		{Pre: pre, Runs: []sysRun{{Kind: "apply", Objs: []sysObj{}}, {Kind: "apply", Objs: []sysObj{soA}}, {Kind: "apply", Objs: []sysObj{}}, {Kind: "destroy"}}},
 		{Pre: pre, Runs: []sysRun{{Kind: "destroy"}}},
@@ -301,19 +321,7 @@ func genSysNamed(name string, out *proto.Out, rng *proto.Rng, tier string) {
 	for i := 0; i < n; i++ {
 		cases = append(cases, genSysHistory(rng))
 	}
-	res := make([]map[string]any, len(cases))
-	var wg sync.WaitGroup
-	sem := make(chan struct{}, 16)
-	for i := range cases {
-		wg.Add(1)
-		sem <- struct{}{}
-		go func(i int) {
-			defer wg.Done()
-			defer func() { <-sem }()
-			res[i] = runSys(cases[i])
-		}(i)
-	}
-	wg.Wait()
+	res := runSysIsolated(cases, 16)
 	for i := range cases {
 		out.Emit(name, cases[i], res[i])
 	}
@@ -351,19 +359,7 @@ func genSyncRace(out *proto.Out, _ *proto.Rng, tier string) {
 			cases = append(cases, h)
 		}
 	}
-	res := make([]map[string]any, len(cases))
-	var wg sync.WaitGroup
-	sem := make(chan struct{}, 16)
-	for i := range cases {
-		wg.Add(1)
-		sem <- struct{}{}
-		go func(i int) {
-			defer wg.Done()
-			defer func() { <-sem }()
-			res[i] = runSys(cases[i])
-		}(i)
-	}
-	wg.Wait()
+	res := runSysIsolated(cases, 16)
 	for i := range cases {
 		out.Emit("sync-race", cases[i], res[i])
 	}
@@ -375,6 +371,6 @@ func init() {
 		if err := json.Unmarshal(raw, &in); err != nil {
 			return nil, err
 		}
-		return runSys(in), nil
+		return runSysIsolated([]sysIn{in}, 1)[0], nil
 	}})
 }
